@@ -32,9 +32,10 @@ type Dims struct {
 	Paths            []string `json:"paths"`
 	LeakCheck        bool     `json:"leakCheck"` // C15: after everything is closed nothing of the directory may stay open or mapped
 	KeepFiles        bool     `json:"keepFiles"`
-	CloseOrder       string   `json:"closeOrder"`  // "snapsFirst" (default) | "storeFirst": order in which the driver closes what the behaviour left open
-	Preload          []int    `json:"preload"`     // keys the lower level holds (token 9) before the behaviour starts
-	PreloadKids      []string `json:"preloadKids"` // child collection paths (parents first) the lower level holds, each with key 1 = token 9
+	CloseOrder       string   `json:"closeOrder"`    // "snapsFirst" (default) | "storeFirst": order in which the driver closes what the behaviour left open
+	Preload          []int    `json:"preload"`       // keys the lower level holds (token 9) before the behaviour starts
+	PreloadRounds    int      `json:"preloadRounds"` // the preload is persisted this many times over (separate rounds, no compaction): a footer with that many segment locations (longer than a page from about thirty)
+	PreloadKids      []string `json:"preloadKids"`   // child collection paths (parents first) the lower level holds, each with key 1 = token 9
 	ConcrProfile     string   `json:"concr"`
 	OpOrder          string   `json:"opOrder"`          // "" (ascending keys) | "desc": order in which the operations are put into a batch
 	CompactionPct    float64  `json:"compactionPct"`    // StoreOptions.CompactionPercentage (1.0: never "too fragmented" for a partial compaction)
@@ -331,6 +332,38 @@ func (s *Session) preload() error {
 	if err != nil {
 		return err
 	}
+	rounds := s.D.PreloadRounds
+	if rounds < 1 {
+		rounds = 1
+	}
+	for round := 1; round <= rounds; round++ {
+		if err := s.preloadRound(c, uint64(round)); err != nil {
+			return err
+		}
+	}
+	if err := c.Close(); err != nil {
+		return err
+	}
+	if err := st.Close(); err != nil {
+		return err
+	}
+	s.heldStoreExp = emptyContent(s.D)
+	root := s.heldStoreExp[""]
+	for _, k := range s.D.Preload {
+		root.M[k-1] = Val{P: true, V: []int{9}}
+	}
+	s.heldStoreExp[""] = root
+	for _, q := range s.D.PreloadKids {
+		n := s.heldStoreExp[q]
+		n.Ex = true
+		n.M[0] = Val{P: true, V: []int{9}}
+		s.heldStoreExp[q] = n
+	}
+	return nil
+}
+
+// preloadRound executes the preload batch and waits until it is persisted (round-th round).
+func (s *Session) preloadRound(c moss.Collection, round uint64) error {
 	b, err := c.NewBatch(0, 0)
 	if err != nil {
 		return err
@@ -358,7 +391,7 @@ func (s *Session) preload() error {
 	deadline := time.Now().Add(stepTimeout)
 	for {
 		cs, _ := c.Stats()
-		if cs != nil && cs.TotPersisterLowerLevelUpdateEnd > 0 && cs.CurDirtyOps == 0 && cs.CurDirtySegments == 0 {
+		if cs != nil && cs.TotPersisterLowerLevelUpdateEnd >= round && cs.CurDirtyOps == 0 && cs.CurDirtySegments == 0 {
 			break
 		}
 		if time.Now().After(deadline) {
@@ -366,24 +399,6 @@ func (s *Session) preload() error {
 		}
 		c.(Notifier).NotifyMerger("preload", false) // a batch without top-level operations does not wake the merger by itself
 		time.Sleep(time.Millisecond)
-	}
-	if err := c.Close(); err != nil {
-		return err
-	}
-	if err := st.Close(); err != nil {
-		return err
-	}
-	s.heldStoreExp = emptyContent(s.D)
-	root := s.heldStoreExp[""]
-	for _, k := range s.D.Preload {
-		root.M[k-1] = Val{P: true, V: []int{9}}
-	}
-	s.heldStoreExp[""] = root
-	for _, q := range s.D.PreloadKids {
-		n := s.heldStoreExp[q]
-		n.Ex = true
-		n.M[0] = Val{P: true, V: []int{9}}
-		s.heldStoreExp[q] = n
 	}
 	return nil
 }
